@@ -218,6 +218,36 @@ func followUntil(fn *ssa.Function, b *ssa.BasicBlock, from int, good, stop func(
 	return ""
 }
 
+// reachedFromUses: some instruction that uses v can be executed before r.
+func reachedFromUses(v ssa.Value, r *ssa.Return) bool {
+	if v.Referrers() == nil {
+		return false
+	}
+	for _, u := range *v.Referrers() {
+		if _, isDbg := u.(*ssa.DebugRef); isDbg {
+			continue
+		}
+		if u.Block() == r.Block() {
+			return true
+		}
+		seen := map[*ssa.BasicBlock]bool{}
+		stack := append([]*ssa.BasicBlock{}, u.Block().Succs...)
+		for len(stack) > 0 {
+			x := stack[len(stack)-1]
+			stack = stack[:len(stack)-1]
+			if x == r.Block() {
+				return true
+			}
+			if seen[x] {
+				continue
+			}
+			seen[x] = true
+			stack = append(stack, x.Succs...)
+		}
+	}
+	return false
+}
+
 // writeToReturnsWritten: every Return of Bundle.WriteTo returns cw.Written.
 func writeToReturnsWritten(e *Env) {
 	fn := e.fn("bundle.(*Bundle).WriteTo")
@@ -235,6 +265,8 @@ func writeToReturnsWritten(e *Env) {
 		t := prov.Of(r.Results[0])
 		if prov.Match("call:bundle.NewCountingWriter(param:w).Written", t) {
 			e.R.OK("RETCOUNT", key, e.P.InstrPos(r), "returns the Written field of the counting writer wrapping w")
+		} else if t == "const:0" && len(fn.Params) == 2 && !reachedFromUses(fn.Params[1], r) {
+			e.R.OK("RETCOUNT", key, e.P.InstrPos(r), "returns 0 on a path on which the destination has not been touched yet (no use of w precedes this return)")
 		} else {
 			e.R.Fail("RETCOUNT", key, e.P.InstrPos(r), "byte count returned is "+t+", not the Written field of the counting writer wrapping the destination")
 		}
